@@ -63,6 +63,17 @@ type BuildOpts struct {
 	// (node_0, node_1_parallel_0, node_2_branch_<key> ...). Observations do not mention eino's node keys
 	// (lambdas are identified by their harness path), so nothing else changes. Default: explicit keys.
 	AutoChainKeys bool
+	// Reuse: builder values are shared between two constructions of the whole case. The forest is constructed
+	// twice from the SAME compose.Lambda values, the same Parallel / ChainBranch value per chain stage and the
+	// same GraphBranch value per branch of a Graph (chains, graphs and workflows themselves are fresh objects,
+	// as are the branches of a Workflow); only one of the two constructions (the "real" one) is run.
+	//   0 = off (every value is used once);
+	//   1 = the twin is constructed first, then the real one;
+	//   2 = the real one is constructed, then the twin, then the real one is compiled;
+	//   3 = the real one is constructed and compiled, then the twin is constructed and compiled.
+	// Appending one ChainBranch / Parallel / Lambda to several chains is ordinary use of the builder API: what a
+	// compiled object does must not depend on what else was built from the same parts.
+	Reuse int
 }
 
 type Built struct {
@@ -71,9 +82,24 @@ type Built struct {
 }
 
 type builder struct {
-	c   *Case
-	o   BuildOpts
-	rec *Recorder
+	c     *Case
+	o     BuildOpts
+	rec   *Recorder
+	cache map[string]any // Reuse: builder values by position (nil = off)
+}
+
+// shared returns the builder value cached for a position, constructing it on first use (always, when Reuse is off).
+func (b *builder) shared(kind string, p []uint64, i int, mk func() any) any {
+	if b.cache == nil {
+		return mk()
+	}
+	k := fmt.Sprint(kind, p, i)
+	if v, ok := b.cache[k]; ok {
+		return v
+	}
+	v := mk()
+	b.cache[k] = v
+	return v
 }
 
 func pathOf(p []uint64, k uint64) []uint64 {
@@ -96,6 +122,10 @@ func samePath(a, b []uint64) bool {
 }
 
 func (b *builder) lambda(path []uint64) *compose.Lambda {
+	return b.shared("lambda", path, 0, func() any { return b.newLambda(path) }).(*compose.Lambda)
+}
+
+func (b *builder) newLambda(path []uint64) *compose.Lambda {
 	key := KeyStr(path[len(path)-1])
 	var fails []FailEntry
 	for _, f := range b.c.Fails {
@@ -260,7 +290,9 @@ func (b *builder) plainGraph(g *Graph, p []uint64) (*compose.Graph[M, M], error)
 	for i := range g.Nodes {
 		n := &g.Nodes[i]
 		for j := range n.Branches {
-			if err := cg.AddBranch(nodeName(n.Key), graphBranch(&n.Branches[j])); err != nil {
+			br := &n.Branches[j]
+			gb := b.shared("gbranch", pathOf(p, n.Key), j, func() any { return graphBranch(br) }).(*compose.GraphBranch)
+			if err := cg.AddBranch(nodeName(n.Key), gb); err != nil {
 				return nil, err
 			}
 		}
@@ -364,64 +396,80 @@ func (b *builder) chain(g *Graph, p []uint64) (*compose.Chain[M, M], error) {
 				ch.AppendGraph(sg, opts...)
 			}
 		case "par":
-			par := compose.NewParallel()
-			for ni := range st.Nodes {
-				sn := &st.Nodes[ni]
-				np := pathOf(p, sn.Key)
-				// the output key is given to Parallel.Add*, not as an option
-				n := &Node{Key: sn.Key, Kind: sn.Kind, Sub: sn.Sub}
-				opts := b.nodeOpts(np, n, b.chainKeyOpt(sn.Key)...)
-				ok := KeyStr(sn.OutKey)
-				switch sn.Kind {
-				case "lambda":
-					par.AddLambda(ok, b.lambda(np), opts...)
-				case "pass":
-					par.AddPassthrough(ok, opts...)
-				case "sub":
-					sg, err := b.anyGraph(sn.Sub, np)
-					if err != nil {
-						return nil, err
+			var perr error
+			par := b.shared("par", p, si, func() any {
+				par := compose.NewParallel()
+				for ni := range st.Nodes {
+					sn := &st.Nodes[ni]
+					np := pathOf(p, sn.Key)
+					// the output key is given to Parallel.Add*, not as an option
+					n := &Node{Key: sn.Key, Kind: sn.Kind, Sub: sn.Sub}
+					opts := b.nodeOpts(np, n, b.chainKeyOpt(sn.Key)...)
+					ok := KeyStr(sn.OutKey)
+					switch sn.Kind {
+					case "lambda":
+						par.AddLambda(ok, b.lambda(np), opts...)
+					case "pass":
+						par.AddPassthrough(ok, opts...)
+					case "sub":
+						sg, err := b.anyGraph(sn.Sub, np)
+						if err != nil {
+							perr = err
+							return par
+						}
+						par.AddGraph(ok, sg, opts...)
 					}
-					par.AddGraph(ok, sg, opts...)
 				}
+				return par
+			}).(*compose.Parallel)
+			if perr != nil {
+				return nil, perr
 			}
 			ch.AppendParallel(par)
 		case "branch":
-			table := st.Table
-			var cb *compose.ChainBranch
-			if st.Single {
-				cb = compose.NewChainBranch(func(ctx context.Context, in M) (string, error) {
-					return KeyStr(table[SizeOfGo(in)%uint64(len(table))][0]), nil
-				})
-			} else {
-				cb = compose.NewChainMultiBranch(func(ctx context.Context, in M) (map[string]bool, error) {
-					out := map[string]bool{}
-					if len(table) > 0 {
-						for _, k := range table[SizeOfGo(in)%uint64(len(table))] {
-							out[KeyStr(k)] = true
+			var berr error
+			cb := b.shared("cbranch", p, si, func() any {
+				table := st.Table
+				var cb *compose.ChainBranch
+				if st.Single {
+					cb = compose.NewChainBranch(func(ctx context.Context, in M) (string, error) {
+						return KeyStr(table[SizeOfGo(in)%uint64(len(table))][0]), nil
+					})
+				} else {
+					cb = compose.NewChainMultiBranch(func(ctx context.Context, in M) (map[string]bool, error) {
+						out := map[string]bool{}
+						if len(table) > 0 {
+							for _, k := range table[SizeOfGo(in)%uint64(len(table))] {
+								out[KeyStr(k)] = true
+							}
 						}
-					}
-					return out, nil
-				})
-			}
-			for ni := range st.Nodes {
-				sn := &st.Nodes[ni]
-				np := pathOf(p, sn.Key)
-				n := &Node{Key: sn.Key, Kind: sn.Kind, Sub: sn.Sub, OutKey: sn.OutKey}
-				opts := b.nodeOpts(np, n, b.chainKeyOpt(sn.Key)...)
-				bk := KeyStr(sn.Key)
-				switch sn.Kind {
-				case "lambda":
-					cb.AddLambda(bk, b.lambda(np), opts...)
-				case "pass":
-					cb.AddPassthrough(bk, opts...)
-				case "sub":
-					sg, err := b.anyGraph(sn.Sub, np)
-					if err != nil {
-						return nil, err
-					}
-					cb.AddGraph(bk, sg, opts...)
+						return out, nil
+					})
 				}
+				for ni := range st.Nodes {
+					sn := &st.Nodes[ni]
+					np := pathOf(p, sn.Key)
+					n := &Node{Key: sn.Key, Kind: sn.Kind, Sub: sn.Sub, OutKey: sn.OutKey}
+					opts := b.nodeOpts(np, n, b.chainKeyOpt(sn.Key)...)
+					bk := KeyStr(sn.Key)
+					switch sn.Kind {
+					case "lambda":
+						cb.AddLambda(bk, b.lambda(np), opts...)
+					case "pass":
+						cb.AddPassthrough(bk, opts...)
+					case "sub":
+						sg, err := b.anyGraph(sn.Sub, np)
+						if err != nil {
+							berr = err
+							return cb
+						}
+						cb.AddGraph(bk, sg, opts...)
+					}
+				}
+				return cb
+			}).(*compose.ChainBranch)
+			if berr != nil {
+				return nil, berr
 			}
 			ch.AppendBranch(cb)
 		default:
@@ -437,23 +485,41 @@ func Build(ctx context.Context, c *Case, o BuildOpts) (*Built, error) {
 	if len(c.Forest) == 0 {
 		return nil, errors.New("graphgen: empty forest")
 	}
+	if o.Reuse != 0 {
+		b.cache = map[string]any{}
+	}
 	root := &c.Forest[0]
 	opts := append(b.subCompileOpts(0, nil), o.RootCompileOpts...)
+	compileRoot := func(ag compose.AnyGraph) (r compose.Runnable[M, M], err error) {
+		switch root.Front {
+		case "graph":
+			r, err = ag.(*compose.Graph[M, M]).Compile(ctx, opts...)
+		case "workflow":
+			r, err = ag.(*compose.Workflow[M, M]).Compile(ctx, opts...)
+		case "chain":
+			r, err = ag.(*compose.Chain[M, M]).Compile(ctx, opts...)
+		}
+		return r, err
+	}
+	if o.Reuse == 1 {
+		// the twin comes first (its errors are those of the real construction, reported below)
+		_, _ = b.anyGraph(0, nil)
+	}
 	ag, err := b.anyGraph(0, nil)
 	if err != nil {
 		return nil, err
 	}
-	var r compose.Runnable[M, M]
-	switch root.Front {
-	case "graph":
-		r, err = ag.(*compose.Graph[M, M]).Compile(ctx, opts...)
-	case "workflow":
-		r, err = ag.(*compose.Workflow[M, M]).Compile(ctx, opts...)
-	case "chain":
-		r, err = ag.(*compose.Chain[M, M]).Compile(ctx, opts...)
+	if o.Reuse == 2 {
+		_, _ = b.anyGraph(0, nil)
 	}
+	r, err := compileRoot(ag)
 	if err != nil {
 		return nil, err
+	}
+	if o.Reuse == 3 {
+		if twin, terr := b.anyGraph(0, nil); terr == nil {
+			_, _ = compileRoot(twin)
+		}
 	}
 	return &Built{R: r, Rec: b.rec}, nil
 }
